@@ -1,27 +1,75 @@
-lib/Bytes.vo lib/Bytes.glob lib/Bytes.v.beautified lib/Bytes.required_vo: lib/Bytes.v 
-lib/Bytes.vio: lib/Bytes.v 
-lib/Bytes.vos lib/Bytes.vok lib/Bytes.required_vos: lib/Bytes.v 
-lib/Utf8.vo lib/Utf8.glob lib/Utf8.v.beautified lib/Utf8.required_vo: lib/Utf8.v lib/Bytes.vo
-lib/Utf8.vio: lib/Utf8.v lib/Bytes.vio
-lib/Utf8.vos lib/Utf8.vok lib/Utf8.required_vos: lib/Utf8.v lib/Bytes.vos
 gen/Facts_HTMLEscape.vo gen/Facts_HTMLEscape.glob gen/Facts_HTMLEscape.v.beautified gen/Facts_HTMLEscape.required_vo: gen/Facts_HTMLEscape.v 
 gen/Facts_HTMLEscape.vio: gen/Facts_HTMLEscape.v 
 gen/Facts_HTMLEscape.vos gen/Facts_HTMLEscape.vok gen/Facts_HTMLEscape.required_vos: gen/Facts_HTMLEscape.v 
+gen/Facts_builtin.vo gen/Facts_builtin.glob gen/Facts_builtin.v.beautified gen/Facts_builtin.required_vo: gen/Facts_builtin.v 
+gen/Facts_builtin.vio: gen/Facts_builtin.v 
+gen/Facts_builtin.vos gen/Facts_builtin.vok gen/Facts_builtin.required_vos: gen/Facts_builtin.v 
 gen/Facts_escapers.vo gen/Facts_escapers.glob gen/Facts_escapers.v.beautified gen/Facts_escapers.required_vo: gen/Facts_escapers.v 
 gen/Facts_escapers.vio: gen/Facts_escapers.v 
 gen/Facts_escapers.vos gen/Facts_escapers.vok gen/Facts_escapers.required_vos: gen/Facts_escapers.v 
+gen/Facts_maprange.vo gen/Facts_maprange.glob gen/Facts_maprange.v.beautified gen/Facts_maprange.required_vo: gen/Facts_maprange.v 
+gen/Facts_maprange.vio: gen/Facts_maprange.v 
+gen/Facts_maprange.vos gen/Facts_maprange.vok gen/Facts_maprange.required_vos: gen/Facts_maprange.v 
+lib/Bytes.vo lib/Bytes.glob lib/Bytes.v.beautified lib/Bytes.required_vo: lib/Bytes.v 
+lib/Bytes.vio: lib/Bytes.v 
+lib/Bytes.vos lib/Bytes.vok lib/Bytes.required_vos: lib/Bytes.v 
+lib/MiscRunes.vo lib/MiscRunes.glob lib/MiscRunes.v.beautified lib/MiscRunes.required_vo: lib/MiscRunes.v lib/Bytes.vo lib/Utf8.vo
+lib/MiscRunes.vio: lib/MiscRunes.v lib/Bytes.vio lib/Utf8.vio
+lib/MiscRunes.vos lib/MiscRunes.vok lib/MiscRunes.required_vos: lib/MiscRunes.v lib/Bytes.vos lib/Utf8.vos
+lib/Perm.vo lib/Perm.glob lib/Perm.v.beautified lib/Perm.required_vo: lib/Perm.v 
+lib/Perm.vio: lib/Perm.v 
+lib/Perm.vos lib/Perm.vok lib/Perm.required_vos: lib/Perm.v 
+lib/Utf8.vo lib/Utf8.glob lib/Utf8.v.beautified lib/Utf8.required_vo: lib/Utf8.v lib/Bytes.vo
+lib/Utf8.vio: lib/Utf8.v lib/Bytes.vio
+lib/Utf8.vos lib/Utf8.vok lib/Utf8.required_vos: lib/Utf8.v lib/Bytes.vos
+model/BuiltinM.vo model/BuiltinM.glob model/BuiltinM.v.beautified model/BuiltinM.required_vo: model/BuiltinM.v lib/Bytes.vo lib/Utf8.vo lib/MiscRunes.vo gen/Facts_builtin.vo model/HTMLEscapeM.vo
+model/BuiltinM.vio: model/BuiltinM.v lib/Bytes.vio lib/Utf8.vio lib/MiscRunes.vio gen/Facts_builtin.vio model/HTMLEscapeM.vio
+model/BuiltinM.vos model/BuiltinM.vok model/BuiltinM.required_vos: model/BuiltinM.v lib/Bytes.vos lib/Utf8.vos lib/MiscRunes.vos gen/Facts_builtin.vos model/HTMLEscapeM.vos
 model/HTMLEscapeM.vo model/HTMLEscapeM.glob model/HTMLEscapeM.v.beautified model/HTMLEscapeM.required_vo: model/HTMLEscapeM.v lib/Bytes.vo gen/Facts_HTMLEscape.vo
 model/HTMLEscapeM.vio: model/HTMLEscapeM.v lib/Bytes.vio gen/Facts_HTMLEscape.vio
 model/HTMLEscapeM.vos model/HTMLEscapeM.vok model/HTMLEscapeM.required_vos: model/HTMLEscapeM.v lib/Bytes.vos gen/Facts_HTMLEscape.vos
 model/HtmlDecode.vo model/HtmlDecode.glob model/HtmlDecode.v.beautified model/HtmlDecode.required_vo: model/HtmlDecode.v lib/Bytes.vo lib/Utf8.vo
 model/HtmlDecode.vio: model/HtmlDecode.v lib/Bytes.vio lib/Utf8.vio
 model/HtmlDecode.vos model/HtmlDecode.vok model/HtmlDecode.required_vos: model/HtmlDecode.v lib/Bytes.vos lib/Utf8.vos
+model/ScopeM.vo model/ScopeM.glob model/ScopeM.v.beautified model/ScopeM.required_vo: model/ScopeM.v 
+model/ScopeM.vio: model/ScopeM.v 
+model/ScopeM.vos model/ScopeM.vok model/ScopeM.required_vos: model/ScopeM.v 
+proofs/Abbreviate_proofs.vo proofs/Abbreviate_proofs.glob proofs/Abbreviate_proofs.v.beautified proofs/Abbreviate_proofs.required_vo: proofs/Abbreviate_proofs.v lib/Bytes.vo lib/Utf8.vo lib/MiscRunes.vo gen/Facts_builtin.vo model/BuiltinM.vo proofs/MiscRunes_proofs.vo
+proofs/Abbreviate_proofs.vio: proofs/Abbreviate_proofs.v lib/Bytes.vio lib/Utf8.vio lib/MiscRunes.vio gen/Facts_builtin.vio model/BuiltinM.vio proofs/MiscRunes_proofs.vio
+proofs/Abbreviate_proofs.vos proofs/Abbreviate_proofs.vok proofs/Abbreviate_proofs.required_vos: proofs/Abbreviate_proofs.v lib/Bytes.vos lib/Utf8.vos lib/MiscRunes.vos gen/Facts_builtin.vos model/BuiltinM.vos proofs/MiscRunes_proofs.vos
+proofs/Capitalize_proofs.vo proofs/Capitalize_proofs.glob proofs/Capitalize_proofs.v.beautified proofs/Capitalize_proofs.required_vo: proofs/Capitalize_proofs.v lib/Bytes.vo lib/Utf8.vo lib/MiscRunes.vo gen/Facts_builtin.vo model/BuiltinM.vo proofs/MiscRunes_proofs.vo
+proofs/Capitalize_proofs.vio: proofs/Capitalize_proofs.v lib/Bytes.vio lib/Utf8.vio lib/MiscRunes.vio gen/Facts_builtin.vio model/BuiltinM.vio proofs/MiscRunes_proofs.vio
+proofs/Capitalize_proofs.vos proofs/Capitalize_proofs.vok proofs/Capitalize_proofs.required_vos: proofs/Capitalize_proofs.v lib/Bytes.vos lib/Utf8.vos lib/MiscRunes.vos gen/Facts_builtin.vos model/BuiltinM.vos proofs/MiscRunes_proofs.vos
 proofs/HTMLEscape_proofs.vo proofs/HTMLEscape_proofs.glob proofs/HTMLEscape_proofs.v.beautified proofs/HTMLEscape_proofs.required_vo: proofs/HTMLEscape_proofs.v lib/Bytes.vo gen/Facts_HTMLEscape.vo model/HTMLEscapeM.vo lib/Utf8.vo model/HtmlDecode.vo proofs/HtmlDecode_proofs.vo
 proofs/HTMLEscape_proofs.vio: proofs/HTMLEscape_proofs.v lib/Bytes.vio gen/Facts_HTMLEscape.vio model/HTMLEscapeM.vio lib/Utf8.vio model/HtmlDecode.vio proofs/HtmlDecode_proofs.vio
 proofs/HTMLEscape_proofs.vos proofs/HTMLEscape_proofs.vok proofs/HTMLEscape_proofs.required_vos: proofs/HTMLEscape_proofs.v lib/Bytes.vos gen/Facts_HTMLEscape.vos model/HTMLEscapeM.vos lib/Utf8.vos model/HtmlDecode.vos proofs/HtmlDecode_proofs.vos
 proofs/HtmlDecode_proofs.vo proofs/HtmlDecode_proofs.glob proofs/HtmlDecode_proofs.v.beautified proofs/HtmlDecode_proofs.required_vo: proofs/HtmlDecode_proofs.v lib/Bytes.vo lib/Utf8.vo model/HtmlDecode.vo
 proofs/HtmlDecode_proofs.vio: proofs/HtmlDecode_proofs.v lib/Bytes.vio lib/Utf8.vio model/HtmlDecode.vio
 proofs/HtmlDecode_proofs.vos proofs/HtmlDecode_proofs.vok proofs/HtmlDecode_proofs.required_vos: proofs/HtmlDecode_proofs.v lib/Bytes.vos lib/Utf8.vos model/HtmlDecode.vos
+proofs/JSONSpace_proofs.vo proofs/JSONSpace_proofs.glob proofs/JSONSpace_proofs.v.beautified proofs/JSONSpace_proofs.required_vo: proofs/JSONSpace_proofs.v lib/Bytes.vo gen/Facts_builtin.vo model/BuiltinM.vo
+proofs/JSONSpace_proofs.vio: proofs/JSONSpace_proofs.v lib/Bytes.vio gen/Facts_builtin.vio model/BuiltinM.vio
+proofs/JSONSpace_proofs.vos proofs/JSONSpace_proofs.vok proofs/JSONSpace_proofs.required_vos: proofs/JSONSpace_proofs.v lib/Bytes.vos gen/Facts_builtin.vos model/BuiltinM.vos
+proofs/MapRange_proofs.vo proofs/MapRange_proofs.glob proofs/MapRange_proofs.v.beautified proofs/MapRange_proofs.required_vo: proofs/MapRange_proofs.v gen/Facts_maprange.vo
+proofs/MapRange_proofs.vio: proofs/MapRange_proofs.v gen/Facts_maprange.vio
+proofs/MapRange_proofs.vos proofs/MapRange_proofs.vok proofs/MapRange_proofs.required_vos: proofs/MapRange_proofs.v gen/Facts_maprange.vos
+proofs/MiscRunes_proofs.vo proofs/MiscRunes_proofs.glob proofs/MiscRunes_proofs.v.beautified proofs/MiscRunes_proofs.required_vo: proofs/MiscRunes_proofs.v lib/Bytes.vo lib/Utf8.vo lib/MiscRunes.vo
+proofs/MiscRunes_proofs.vio: proofs/MiscRunes_proofs.v lib/Bytes.vio lib/Utf8.vio lib/MiscRunes.vio
+proofs/MiscRunes_proofs.vos proofs/MiscRunes_proofs.vok proofs/MiscRunes_proofs.required_vos: proofs/MiscRunes_proofs.v lib/Bytes.vos lib/Utf8.vos lib/MiscRunes.vos
+proofs/QueryEscape_proofs.vo proofs/QueryEscape_proofs.glob proofs/QueryEscape_proofs.v.beautified proofs/QueryEscape_proofs.required_vo: proofs/QueryEscape_proofs.v lib/Bytes.vo gen/Facts_builtin.vo model/HTMLEscapeM.vo proofs/HTMLEscape_proofs.vo model/BuiltinM.vo
+proofs/QueryEscape_proofs.vio: proofs/QueryEscape_proofs.v lib/Bytes.vio gen/Facts_builtin.vio model/HTMLEscapeM.vio proofs/HTMLEscape_proofs.vio model/BuiltinM.vio
+proofs/QueryEscape_proofs.vos proofs/QueryEscape_proofs.vok proofs/QueryEscape_proofs.required_vos: proofs/QueryEscape_proofs.v lib/Bytes.vos gen/Facts_builtin.vos model/HTMLEscapeM.vos proofs/HTMLEscape_proofs.vos model/BuiltinM.vos
+proofs/Scope_proofs.vo proofs/Scope_proofs.glob proofs/Scope_proofs.v.beautified proofs/Scope_proofs.required_vo: proofs/Scope_proofs.v model/ScopeM.vo
+proofs/Scope_proofs.vio: proofs/Scope_proofs.v model/ScopeM.vio
+proofs/Scope_proofs.vos proofs/Scope_proofs.vok proofs/Scope_proofs.required_vos: proofs/Scope_proofs.v model/ScopeM.vos
+props/C19.vo props/C19.glob props/C19.v.beautified props/C19.required_vo: props/C19.v model/ScopeM.vo proofs/Scope_proofs.vo
+props/C19.vio: props/C19.v model/ScopeM.vio proofs/Scope_proofs.vio
+props/C19.vos props/C19.vok props/C19.required_vos: props/C19.v model/ScopeM.vos proofs/Scope_proofs.vos
 props/C24.vo props/C24.glob props/C24.v.beautified props/C24.required_vo: props/C24.v lib/Bytes.vo gen/Facts_HTMLEscape.vo model/HTMLEscapeM.vo model/HtmlDecode.vo proofs/HTMLEscape_proofs.vo
 props/C24.vio: props/C24.v lib/Bytes.vio gen/Facts_HTMLEscape.vio model/HTMLEscapeM.vio model/HtmlDecode.vio proofs/HTMLEscape_proofs.vio
 props/C24.vos props/C24.vok props/C24.required_vos: props/C24.v lib/Bytes.vos gen/Facts_HTMLEscape.vos model/HTMLEscapeM.vos model/HtmlDecode.vos proofs/HTMLEscape_proofs.vos
+props/C25.vo props/C25.glob props/C25.v.beautified props/C25.required_vo: props/C25.v lib/Bytes.vo lib/Utf8.vo lib/MiscRunes.vo gen/Facts_builtin.vo model/BuiltinM.vo proofs/QueryEscape_proofs.vo proofs/JSONSpace_proofs.vo proofs/Abbreviate_proofs.vo proofs/Capitalize_proofs.vo
+props/C25.vio: props/C25.v lib/Bytes.vio lib/Utf8.vio lib/MiscRunes.vio gen/Facts_builtin.vio model/BuiltinM.vio proofs/QueryEscape_proofs.vio proofs/JSONSpace_proofs.vio proofs/Abbreviate_proofs.vio proofs/Capitalize_proofs.vio
+props/C25.vos props/C25.vok props/C25.required_vos: props/C25.v lib/Bytes.vos lib/Utf8.vos lib/MiscRunes.vos gen/Facts_builtin.vos model/BuiltinM.vos proofs/QueryEscape_proofs.vos proofs/JSONSpace_proofs.vos proofs/Abbreviate_proofs.vos proofs/Capitalize_proofs.vos
+props/C30.vo props/C30.glob props/C30.v.beautified props/C30.required_vo: props/C30.v lib/Perm.vo gen/Facts_maprange.vo proofs/MapRange_proofs.vo
+props/C30.vio: props/C30.v lib/Perm.vio gen/Facts_maprange.vio proofs/MapRange_proofs.vio
+props/C30.vos props/C30.vok props/C30.required_vos: props/C30.v lib/Perm.vos gen/Facts_maprange.vos proofs/MapRange_proofs.vos
